@@ -265,6 +265,8 @@ def run_harness(h, tier, use_cache=True, extra=(), log_suffix="", focus=None, bi
               "log": logp, "reused": False, "cmd": " ".join(cmd), "at": time.strftime("%Y-%m-%dT%H:%M:%S")})
     if focus:
         r["focus"] = focus
+    if big:
+        r["big"] = True
     if not extra and not focus and not timed_out and r["verdict"] is not None and not r["oom"]:
         os.makedirs(os.path.dirname(cpath), exist_ok=True)
         with open(cpath, "w") as f:
@@ -597,12 +599,12 @@ def check_property(prop, tier, only=None, jobs=None, use_cache=True, do_replay=T
     if masked:
         def fjob(hr):
             h, r = hr
-            w = min(cap, h["weight"])
+            w = cap if r.get("big") else min(cap, h["weight"])
             with acq:
                 for _ in range(w):
                     budget.acquire()
             try:
-                return h, r, run_harness(h, tier, use_cache=False, focus=prop)
+                return h, r, run_harness(h, tier, use_cache=False, focus=prop, big=bool(r.get("big")))
             finally:
                 for _ in range(w):
                     budget.release()
